@@ -1,7 +1,37 @@
-(** C18 - statements follow (work in progress in this commit) *)
-Require Import AT.Model.Base AT.Model.Heap AT.Model.Mutate AT.Spec.MutSpec.
+(** C18 - LightNodeMixin behaves identically to NodeMixin.
+    Only statements; proofs are [exact <lemma>] or a computation on the
+    constant regenerated from /repo's sources. *)
+Require Import AT.Model.Base AT.Model.Heap AT.Model.Mutate.
+Require AT.Proofs.MutLockstep AT.Generated.Extracted.
+Import AT.Proofs.MutLockstep.
 
-Theorem C18_noop_example :
-  fst (run_op true false no_faults reentry_fuel (SetParent 1 (VNode 0)) (start (attach_links (init 2) 1 0))) = Ok tt.
+(** For every call whose arguments are tree nodes, under every fault oracle,
+    assertion setting and fuel, from every state: the two mixins' setters are
+    the same function - same outcome, same final links, same hook log *)
+Theorem C18_lockstep : forall asrt faults fuel o, node_op o ->
+  forall s, run_op true asrt faults fuel o s = run_op false asrt faults fuel o s.
+Proof. exact run_op_same. Qed.
+Print Assumptions C18_lockstep.
+
+(** The two source files are textually parallel: the members whose normalised
+    AST differs (extracted from /repo on this run) are exactly the known four -
+    __slots__, the two isinstance type checks (which only affect non-node
+    arguments) and the deprecated `anchestors` alias.  This is the obligation a
+    fix applied to only one of the copies breaks; it is what justifies using
+    one Gallina function per read-only query for both mixins. *)
+Definition expected_hunks : list (list N) :=
+  [ [111; 110; 108; 121; 95; 108; 105; 103; 104; 116; 58; 61; 95; 95; 115; 108; 111; 116; 115; 95; 95]%N;
+    [116; 121; 112; 101; 99; 104; 101; 99; 107; 58; 95; 95; 99; 104; 101; 99; 107; 95; 99; 104; 105; 108; 100; 114; 101; 110; 64; 115; 116; 97; 116; 105; 99; 109; 101; 116; 104; 111; 100]%N;
+    [111; 110; 108; 121; 95; 110; 111; 100; 101; 58; 97; 110; 99; 104; 101; 115; 116; 111; 114; 115]%N;
+    [116; 121; 112; 101; 99; 104; 101; 99; 107; 58; 112; 97; 114; 101; 110; 116; 46; 115; 101; 116; 116; 101; 114]%N ].
+(* "only_light:=__slots__", "typecheck:__check_children@staticmethod",
+   "only_node:anchestors", "typecheck:parent.setter" *)
+
+Theorem C18_sources_parallel : Extracted.mixin_hunks = expected_hunks.
 Proof. reflexivity. Qed.
-Print Assumptions C18_noop_example.
+Print Assumptions C18_sources_parallel.
+
+Example C18_example :
+  node_op (SetChildren 0 (CList [VNode 1; VNode 1])) /\
+  fst (run_op false false no_faults reentry_fuel (SetChildren 0 (CList [VNode 1; VNode 1])) (start (init 2))) = Err TreeError.
+Proof. split; [|reflexivity]. simpl. repeat constructor; eauto. Qed.
